@@ -317,12 +317,18 @@ def build_special_tags(env, reps):
             n += 1
             s.call("raw_s", key=key, bn=bn, es=es, out="S")
             s.call("raw_r", key=key, bn=bn, es=es, out="R")
-            for i, tgt in enumerate(targets):
+            # ... and messages whose tag repeats the tag of an earlier message of the same context (the previous one,
+            # the one before, the first): a receiver that remembers tags it has seen would refuse them
+            tags = []
+            for i, tgt in enumerate(targets + ["prev", "prev", "prev2", "first", "prev"]):
                 aad = g.raw(env.rnd.choice([0, 5]))
                 nonce_i = bytes(a ^ b for a, b in zip(bn, i.to_bytes(12, "big")))
+                if isinstance(tgt, str):
+                    tgt = {"prev": tags[-1], "prev2": tags[-2], "first": tags[0]}[tgt]
                 pt = directed.gcm_plaintext_for_tag(aead, key, nonce_i, aad, tgt)
                 if pt is None:
                     pt = g.raw(16)
+                tags.append(refaead.seal(aead, key, nonce_i, aad, pt)[-16:])
                 api = "inplace" if (i + r) & 1 else "alloc"
                 s.call("seal", ctx="S", api=api, pt=pt, aad=aad, out="m%d" % i, special_tag=tgt.hex())
                 if (i + r) & 2:
